@@ -20,7 +20,8 @@ SHRINK_BUDGET = 60
 THEOREMS = ["C13_empty_equiv", "C13_named_equiv", "C13_filtered_ids", "C13_prune_empty_spec", "C13_prune_named_spec",
             "C13_root_kept", "C13_export_once", "C13_export_closed", "C13_export_ids", "C13_export_complete",
             "C13_export_dirs", "C13_prune_gen_instances", "C13_export_contents", "C13_export_skipped", "C13_skipped_iff", "C13_skip_same_ids",
-            "C13_symlink_limit", "C13_satisfiable"]
+            "C13_symlink_limit", "C13_satisfiable", "C13_export_checked",
+            "C13_export_objects_checked"]
 RULE = ("random file-system trees (depth <= 5, <= 60 nodes, files 0..100 bytes plus a couple of 1000-3000 byte ones) "
         "materialised in a temporary directory, seeded with: chains of directories that are empty only recursively, "
         "directories / files / symlinks named like the ignored names up to ASCII or non-ASCII case (Dir/dir/DIR, "
